@@ -709,7 +709,7 @@ class QueryBuilder(Selectable, Term):  # type:ignore[misc]
         self._for_update = False
         self._for_update_nowait = False
         self._for_update_skip_locked = False
-        self._for_update_of: set[str] = set()
+        self._for_update_of: tuple[str, ...] = ()
 
         self._wheres: QueryBuilder | Term | None = None
         self._prewheres: Criterion | None = None
@@ -1058,7 +1058,7 @@ class QueryBuilder(Selectable, Term):  # type:ignore[misc]
         self._for_update = True
         self._for_update_skip_locked = skip_locked
         self._for_update_nowait = nowait
-        self._for_update_of = set(of)
+        self._for_update_of = tuple(dict.fromkeys(of))
 
     @builder
     def do_nothing(self) -> "Self":  # type:ignore[return]
